@@ -31,7 +31,7 @@ RULE = ('histories of 2-14 add_block/set_block calls (append, overwrite first/mi
         'block table must be continuous per channel. Every history also runs on the extracted Coq model (outcome class and '
         'complete store after every call). distinct = distinct histories; non-trivial = at least one non-zero block edge')
 TRUSTED = ['numeric extraction of first/last/shape rows inside register_grad_event taken from the implementation']
-ASSUMPTIONS = ['amplitude levels are kept >= 2x away from the one-slew-step threshold (binary64 vs exact comparison)',
+ASSUMPTIONS = ['amplitude level differences are kept >= 20% away from the one-slew-step threshold (binary64 vs exact comparison)',
                'block indices >= 1, gradients passed by value']
 
 LEVELS = [0.0, 2.0e5, -2.0e5, 3.5e5]
@@ -157,8 +157,10 @@ def expected(seq, i, evs, edges=None):
     return None
 
 
-def continuity_of_table(seq):
-    step = seq.system.max_slew * seq.system.grad_raster_time
+def continuity_of_table(seq, step=None):
+    # (histories that assign another system: every block was admitted under the step of its time, so the table is
+    # only required to be continuous up to the largest step that was in force)
+    step = max(step or 0.0, seq.system.max_slew * seq.system.grad_raster_time)
     prev = {'x': 0.0, 'y': 0.0, 'z': 0.0}
     for n, i in enumerate(seq.block_events.keys()):
         b = seq.get_block(i)
@@ -254,7 +256,10 @@ def gen_history(rng, tier):
         ids = list(tw.on.block_events.keys())
         r = rng.random()
         special = rng.random()
-        if ids and special < 0.07:
+        if ids and special < 0.07 and getattr(tw, 'max_step', 0.0) <= 1.4e5:
+            # (not after a system whose slew step is as large as the level differences was in force: blocks may then
+            # legally meet with a jump, and the reader's per-id reconstruction of first/last is no longer determined by
+            # the file -- see the note at the re-store probes below)
             # write + read of the sequence's own file: the store (and the edge values the reader reconstructs) replace
             # what was built; the history continues on the loaded object
             tw.write_read(do_read=True)
@@ -292,6 +297,12 @@ def gen_history(rng, tier):
         if ids and special < 0.10:
             # another system object is assigned: the slew-step threshold must follow it
             other = H.mk_system(rng, 1)
+            if rng.random() < 0.6:
+                # slew steps on either side of the level differences the blocks use (2e5 .. 7e5): what was a jump becomes a
+                # legal continuation and vice versa, so a threshold remembered from construction time shows
+                other.max_slew = rng.choice([600, 1200, 2000, 50]) * other.gamma
+            tw.max_step = max(getattr(tw, 'max_step', 0.0), tw.on.system.max_slew * tw.on.system.grad_raster_time,
+                              other.max_slew * other.grad_raster_time)
             for s_ in (tw.on, tw.off):
                 s_.system = other
             tw._record('system', 'load ' + sm.core_tokens(tw.on), [('ok', None), ('ok', None)])
@@ -442,7 +453,7 @@ def run_one(ctx, rng, n, tag):
         sig = 'C05/accepts-invalid' if d['got'] == 'accept' else 'C05/rejects-valid'
         ctx.fail(sig, case, d)
     try:
-        c = continuity_of_table(tw.off)
+        c = continuity_of_table(tw.off, getattr(tw, 'max_step', None))
     except Exception as e:  # noqa: BLE001
         c = None
         ctx.count('oracle.table_decode_error')
@@ -485,7 +496,7 @@ def replay(ctx, case):
         tw, kinds, diffs = gen_history(rng, case.get('tier', 'quick'))
     for d in diffs[:1]:
         ctx.fail('C05/accepts-invalid' if d['got'] == 'accept' else 'C05/rejects-valid', case, d)
-    c = continuity_of_table(tw.off)
+    c = continuity_of_table(tw.off, getattr(tw, 'max_step', None))
     if c:
         ctx.fail('C05/discontinuous-table', case, {'what': c})
     return {'kinds': kinds, 'accept_reject_diffs': diffs[:3], 'table': c}
